@@ -106,6 +106,25 @@ CLAIMS = {
              "unsegmented stream, term by term.",
         note="Trusted: CPython, z3, BytesIO/bytes/int shims of the socketwrapper module; zlib itself is outside (FFI).",
         ref="DESIGN.md section 5 C12", technique=TECH),
+    "C13": dict(
+        text="Self-composition by bounded symbolic execution: message B parsed after message A (complete, truncated, unknown, text, MSM, nested groups; through the "
+             "constructor, RTCMReader.parse and one reader object) must give term by term what B gives from the pristine state and must not mention A's variables; MSM pairs "
+             "with equal masks and the CRC helper are checked the same way; all definition/lookup tables are deep-compared before/after; every write to module- or "
+             "class-level state during any path is recorded. Thread interleavings are NOT explored: the thread clause is decided by the frame condition (no shared write => "
+             "disjoint state); a shared write is handed to a concrete 8-thread cold-start replay and reported as a violation only if it reproduces, else inconclusive.",
+        note="Trusted: CPython, z3; shared-state tracker sees empty/None package-level containers, rebinding of package-level bindings and lazily created names; "
+             "in-place mutation of non-empty tables is seen by the deep comparison.",
+        ref="DESIGN.md section 5 C13", technique=TECH + "; thread clause by frame condition"),
+    "C14": dict(
+        text="Bounded symbolic execution of __setattr__ on symbolically decoded messages of every family (incl. unknown/reserved types): every existing attribute name, "
+             "the private ones, fresh names and SYMBOLIC names of 1-4 free characters, with a free integer value (so 'equal to the current value' is one of the cases) and "
+             "float/bytes/str/None: each attempt must raise RTCMMessageError and leave __dict__ (same objects), payload, identity and serialize() terms unchanged.",
+        note="Trusted: CPython, z3.", ref="DESIGN.md section 5 C14", technique=TECH),
+    "C19": dict(
+        text="Bounded symbolic execution of att2idx / att2name / datadesc on every (field, nesting depth) name template the layout walker derives from the tables, with the "
+             "index DIGITS symbolic (two- and three-digit indices per level: all indices 1..999 in one path per template); results are compared with the digit polynomial, "
+             "the field key and the table description; families of underscore field names are checked in sequences.",
+        note="Trusted: CPython, z3, string proxy; boundary indices additionally replayed concretely.", ref="DESIGN.md section 5 C19", technique=TECH),
 }
 
 NA_REASON = "check under construction in this build round (see DESIGN.md); will be claimed once its harness lands"
